@@ -23,6 +23,10 @@ Spec == Init /\ [][Next]_vars
 IsObs == Last.e = "obs"
 IsPair == Last.e = "pair"
 C15_NoDrop == IsObs => NoDrop(Last)
+\* C12: an explicit error of the kernel (queue full, scheduler full, shutting down, subsystem failure - with or without an
+\* underlying cause) reaches the client as exactly that error over both protocols
+C12_ExplicitErrorReachesClient ==
+  (IsObs /\ Last.via = "error" /\ Last.status >= 50000) => (NoDrop(Last) /\ HttpOK(Last) /\ GrpcOK(Last))
 C15_HttpRendering == (IsObs /\ NoDrop(Last)) => HttpOK(Last)
 C15_GrpcRendering == (IsObs /\ NoDrop(Last)) => GrpcOK(Last)
 \* a claimed task is rendered with the type of its message and exactly the promises the kernel handed
